@@ -1,137 +1,110 @@
 /*
- * models/aws_fmt.c -- executable model (assumed contract, G6) of asprintf(3) for exactly the conversions
- * aws/aws_sign.c uses:  %s  %d  %%  and ordinary characters (C11 7.21.6.1):
- *   - fails (returns -1, *ret unspecified = left untouched) -- nondeterministically, or when malloc fails --,
- *     or stores a fresh NUL-terminated string in *ret and returns its length;
- *   - %s copies the bytes of the argument up to its NUL; %d prints the int in decimal, '-' for negative values,
- *     no padding; %% prints '%'; any other conversion fails a MODEL assertion.
+ * models/aws_fmt.c -- model (assumed contract, G6) of asprintf(3) for exactly the conversions aws/aws_sign.c uses:
+ * %s  %d  %%  and ordinary characters (C11 7.21.6.1).  Any other conversion fails a MODEL assertion.
  *
- * NOT variadic (HOWTO trap: goto-instrument --dfcc appends its write-set parameter to every function and thereby
- * breaks functions with "..." -- measured: every assignment inside the callee is reported "not assignable").
- * The harness redefines the asprintf macro (util/asprintf.h: #define asprintf libcperciva_asprintf) so that the
- * calls in the unchanged text of aws_sign.c become calls of the fixed-arity
- *     aws_asprintf9(ret, fmt, a1 .. a9)
- * with every variable argument converted to const void * (an int through intptr_t; converted back here) and
- * missing ones padded with 0 (harness/C19/c19.h).  The real util/asprintf.c (two vsnprintf calls + malloc) is
- * therefore NOT part of these proofs.
+ * WHAT IS MODELLED.  asprintf either fails (returns -1, *ret untouched) -- nondeterministically, or when malloc
+ * fails -- or stores a fresh NUL-terminated string in *ret and returns its length.  The model records WHAT WAS ASKED
+ * TO BE PRINTED, in normal form (models/aws_stream.h): the literal text of the format, each %s argument (a
+ * registered input as a REF token, a fixed-length internal string or a string literal as text), each %d argument.
+ * By C11 the result is the concatenation of exactly these pieces; that is the assumed contract.  The BYTES of the
+ * result are not computed: the block holds arbitrary non-NUL bytes of the right length (rendered length of the normal
+ * form) followed by NUL, and the model keeps a snapshot of them, so that a later consumer (the hash model's log)
+ * can be recognised as "the unmodified result of the k-th asprintf call".  Rendering into bytes would put every
+ * byte behind the first argument at a symbolic position, which the SAT back end cannot handle at these sizes (see
+ * aws_stream.h); nothing is lost, because aws_sign.c never looks inside a formatted string: it passes it to
+ * strlen, to the hash functions, to free, or to its caller.
+ *
+ * NOT variadic (goto-instrument --dfcc appends its write-set parameter to every function and thereby breaks
+ * functions with "..." -- measured: every assignment inside the callee is reported "not assignable").  The harness
+ * redefines the asprintf macro (util/asprintf.h: #define asprintf libcperciva_asprintf) so that the calls in the
+ * unchanged text of aws_sign.c become calls of the fixed-arity  aws_asprintf9(ret, fmt, a1 .. a9)  with every
+ * variable argument converted to const void * (an int through intptr_t; converted back here), missing ones padded
+ * with 0 (harness/C19/c19.h).  The real util/asprintf.c (two vsnprintf calls + malloc) is therefore NOT part of
+ * these proofs.
  *
  * The block has the FIXED capacity AWS_OUTMAX instead of length + 1 bytes: objects of symbolic size send every
- * byte access through CBMC's array theory, which does not scale to these strings (measured: > 16 GB); a too large
- * block only over-approximates which accesses are valid, and C19 makes no memory-safety claim.
- * Loops have compile-time-constant bounds (AWS_FMTMAX format characters, AWS_ARGMAX characters per %s argument);
- * reaching a bound is a MODEL-BOUND failure (undecided), never a pass.
+ * byte access through CBMC's array theory (measured: > 16 GB); a too large block only over-approximates which
+ * accesses are valid, and C19 makes no memory-safety claim.
  * Also: do-nothing warn()/warnx() (util/warnp.c prints to stderr, no effect on any property).
- * Cross-checked natively against glibc's asprintf by harness/C19/native_selftest.sh.
  */
 #include <stddef.h>
 #include <stdint.h>
 #include <stdlib.h>
+#include "aws_stream.h"
+#include "aws_fmt.h"
 
-#ifndef AWS_FMTMAX
-#define AWS_FMTMAX 320
-#endif
-#ifndef AWS_ARGMAX
-#define AWS_ARGMAX 72
-#endif
-#ifndef AWS_OUTMAX
-#define AWS_OUTMAX 320
-#endif
+struct aws_var g_aws_in[AWS_NIN];
+struct aws_var g_aws_fix[AWS_NFIX];
+size_t g_aws_nfix;
+struct aws_fmt_ghost g_aws_fmt;
 
-#ifdef VERIF_NATIVE
-#define AWS_FMT_FAIL() 0
-#define AWS_FMT_BOUND(what) abort()
-#define AWS_FMT_BAD(what) abort()
-#else
+#ifndef VERIF_NATIVE
 int nondet_int(void);
-#define AWS_FMT_FAIL() nondet_int()
-#define AWS_FMT_BOUND(what) do { __CPROVER_assert(0, "MODEL-BOUND aws_fmt: " what); __CPROVER_assume(0); } while (0)
+#define AWS_FMT_BOUND(c, what) do { __CPROVER_assert(c, "MODEL-BOUND aws_fmt: " what); __CPROVER_assume(c); } while (0)
 #define AWS_FMT_BAD(what) do { __CPROVER_assert(0, "MODEL aws_fmt: " what); __CPROVER_assume(0); } while (0)
 #pragma CPROVER check push
 #pragma CPROVER check disable "conversion"
-#endif
-
-#define AWS_PUT(ch) do { if (pos < AWS_OUTMAX - 1) str[pos] = (ch); pos++; } while (0)
 
 int
 aws_asprintf9(char ** ret, const char * fmt, const void * a1, const void * a2, const void * a3, const void * a4,
     const void * a5, const void * a6, const void * a7, const void * a8, const void * a9)
 {
 	const void * av[9];
+	struct aws_fmt_rec * r;
 	char * str;
-	size_t pos = 0;
 	size_t ai = 0;
-	size_t fi, k;
-	(void)&fi;
-	(void)&k;
-	(void)&pos;
-	(void)&ai;
+	size_t fi, i, L;
 
 	av[0] = a1; av[1] = a2; av[2] = a3; av[3] = a4; av[4] = a5; av[5] = a6; av[6] = a7; av[7] = a8; av[8] = a9;
-	if (AWS_FMT_FAIL())
+	if (nondet_int())
 		return (-1);
 	if ((str = malloc(AWS_OUTMAX)) == NULL)
 		return (-1);
 
+	AWS_FMT_BOUND(g_aws_fmt.n < AWS_NREC, "more than AWS_NREC asprintf calls");
+	r = &g_aws_fmt.rec[g_aws_fmt.n];
+	aws_stream_init(&r->s);
 	for (fi = 0; fi < AWS_FMTMAX; fi++) {
 		char c = fmt[fi];
 
 		if (c == '\0')
 			break;
 		if (c != '%') {
-			AWS_PUT(c);
+			aws_stream_c(&r->s, (uint8_t)c);
 			continue;
 		}
 		c = fmt[++fi];
 		if (c == '%') {
-			AWS_PUT('%');
+			aws_stream_c(&r->s, '%');
 		} else if (c == 's') {
-			const char * s;
-
 			if (ai >= 9)
 				AWS_FMT_BAD("more than 9 conversions");
-			s = (const char *)av[ai++];
-			for (k = 0; k < AWS_ARGMAX; k++) {
-				if (s[k] == '\0')
-					break;
-				AWS_PUT(s[k]);
-			}
-			if (k == AWS_ARGMAX)
-				AWS_FMT_BOUND("%s argument longer than AWS_ARGMAX");
+			aws_stream_cstr(&r->s, (const char *)av[ai++]);
 		} else if (c == 'd') {
-			int v;
-			unsigned int u;
-			char dig[10];
-			size_t nd = 0;
-
 			if (ai >= 9)
 				AWS_FMT_BAD("more than 9 conversions");
-			v = (int)(intptr_t)av[ai++];
-			u = (v < 0) ? 0u - (unsigned int)v : (unsigned int)v;
-			for (k = 0; k < 10; k++) {
-				dig[k] = (char)('0' + (u % 10));
-				u /= 10;
-				if (dig[k] != '0' || k == 0)
-					nd = k + 1;	/* index of the most significant non-zero digit, + 1 */
-			}
-			if (v < 0)
-				AWS_PUT('-');
-			for (k = 0; k < 10; k++)
-				if (k < nd)
-					AWS_PUT(dig[nd - 1 - k]);
+			aws_stream_int(&r->s, (int)(intptr_t)av[ai++]);
 		} else {
 			AWS_FMT_BAD("conversion other than %s %d %%");
 		}
 	}
-	if (fi == AWS_FMTMAX)
-		AWS_FMT_BOUND("format longer than AWS_FMTMAX");
-	if (pos > AWS_OUTMAX - 1)
-		AWS_FMT_BOUND("asprintf result longer than AWS_OUTMAX - 1");
-	str[pos] = '\0';
+	AWS_FMT_BOUND(fi < AWS_FMTMAX, "format longer than AWS_FMTMAX");
+
+	/* the result: L arbitrary non-NUL bytes, then NUL; remembered */
+	L = aws_stream_len(&r->s);
+	AWS_FMT_BOUND(L < AWS_OUTMAX, "asprintf result longer than AWS_OUTMAX - 1");
+	for (i = 0; i < AWS_OUTMAX; i++)
+		__CPROVER_assume(i >= L || str[i] != '\0');
+	str[L] = '\0';
+	for (i = 0; i < AWS_OUTMAX; i++)
+		r->snap[i] = (uint8_t)str[i];
+	r->len = L;
+	r->result = str;
+	g_aws_fmt.n++;
 	*ret = str;
-	return ((int)pos);
+	return ((int)L);
 }
 
-#ifndef VERIF_NATIVE
 #pragma CPROVER check pop
 
 void
